@@ -223,6 +223,22 @@ pub fn run_extra(entry: &Entry, inputs: &[Vec<V>], mbl: u8, thorough: bool, seed
         }
     }
 
+    // (2b) typed batches: every element index moved outside its type's range
+    let mut n_typed = 0;
+    for (x, _, _) in &admissible {
+        if n_typed >= if thorough { 4 } else { 2 } {
+            break;
+        }
+        let exs = entry.ood_attacks(x);
+        if exs.is_empty() {
+            break;
+        }
+        n_typed += 1;
+        for ex in exs {
+            one_attack(entry, &rel, k, mbl, &ex, &Family::Ood, &narrow, &mut rng, &mut st, rep);
+        }
+    }
+
     // (3) out-of-domain inputs attacked at the constraint level
     if let Some((base, fbase, nb)) = admissible.first() {
         let mut n_ood = 0;
